@@ -21,22 +21,29 @@ func (s *Store) snapshotPrevious(ss Snapshot) (Snapshot, error) {
 	slocs, _ := footer.segmentLocs()
 	defer footer.DecRef()
 
-	if len(slocs) <= 0 {
-		return nil, nil
-	}
+	// The file to scan is the one holding the footer's segments: those
+	// of the top-level collection or, when it has none, those of its
+	// child collections.
+	var fref *FileRef
+	if len(slocs) > 0 {
+		mref := slocs[0].mref
+		if mref == nil {
+			return nil, fmt.Errorf("footer mref nil")
+		}
 
-	mref := slocs[0].mref
-	if mref == nil {
-		return nil, fmt.Errorf("footer mref nil")
+		mref.m.Lock()
+		if mref.refs <= 0 {
+			mref.m.Unlock()
+			return nil, fmt.Errorf("footer mmap has 0 refs")
+		}
+		fref = mref.fref
+		mref.m.Unlock() // Safe since the file beneath the mmap cannot change.
+	} else {
+		fref = footer.childFileRef()
+		if fref == nil {
+			return nil, nil
+		}
 	}
-
-	mref.m.Lock()
-	if mref.refs <= 0 {
-		mref.m.Unlock()
-		return nil, fmt.Errorf("footer mmap has 0 refs")
-	}
-	fref := mref.fref
-	mref.m.Unlock() // Safe since the file beneath the mmap cannot change.
 
 	if fref == nil {
 		return nil, fmt.Errorf("footer fref nil")
